@@ -133,8 +133,12 @@ def arith(a, b=2, *, c=1):
 
 
 def raise_exc(kind, *args):
-    cls = {'ValueError': ValueError, 'KeyError': KeyError, 'Custom': CustomError, 'TwoArg': None, 'OSError': OSError,
-           'ZeroDivision': ZeroDivisionError, 'CustomBase': CustomBase, 'SystemExit': SystemExit, 'KeyboardInterrupt': KeyboardInterrupt}[kind]
+    import builtins
+    import queue
+    cls = {'Custom': CustomError, 'TwoArg': None, 'ZeroDivision': ZeroDivisionError, 'CustomBase': CustomBase, 'queue.Empty': queue.Empty, 'queue.Full': queue.Full,
+           'WorkerTerminatedError': WorkerTerminatedError}.get(kind)
+    if cls is None and kind != 'TwoArg':
+        cls = getattr(builtins, kind)       # any built-in exception class by name
     if kind == 'TwoArg':
         raise TwoArgError(*(args or (1, 2)))
     raise cls(*args)
